@@ -146,7 +146,7 @@ pub fn prop() -> Prop {
         gen,
         check,
         panic_is_violation: false,
-        budget: (300_000, 8_000_000),
+        budget: (1800000, 48000000),
         extra: Some(extra),
         required: &["breaks_inserted", "forced_break_ascii", "optimal_fit_multi_line", "unicode_multi_line"],
         known: Some(known),
